@@ -9,6 +9,7 @@ import (
 	"github.com/go-sql-driver/mysql"
 	"math"
 	"os"
+	"seata.apache.org/seata-go/pkg/util/vshim/vtime"
 	"strings"
 	"time"
 
@@ -111,6 +112,7 @@ func ops() []Op {
 		{"prep-q", "prep-query", "SELECT id, cnt FROM t_s1 WHERE cnt >= ? ORDER BY id", []interface{}{20}, nil},
 		{"prep-upd-twice", "prep-exec", "UPDATE t_s1 SET name = ? WHERE id = ?", []interface{}{"pp", int64(3)}, []interface{}{"qq", int64(1)}},
 		{"prep-ins-twice", "prep-exec", "INSERT INTO t_s1 (id, name, cnt) VALUES (?, ?, ?)", []interface{}{int64(8), "h", 80}, []interface{}{int64(9), "i", 90}},
+		{"prep-q-forupdate", "prep-query", "SELECT cnt FROM t_s1 WHERE id = ? FOR UPDATE", []interface{}{int64(1)}, nil},
 		{"prep-q-twice", "prep-query", "SELECT id, cnt FROM t_s1 WHERE cnt >= ? ORDER BY id", []interface{}{20}, []interface{}{30}},
 	}
 }
@@ -445,7 +447,16 @@ func runUnit(ctx context.Context, db handle, u Unit) []OpResult {
 		return append(out, OpResult{Err: "begin: " + err.Error()})
 	}
 	for _, o := range u.Ops {
-		out = append(out, runOp(ctx, tx, o))
+		res := runOp(ctx, tx, o)
+		out = append(out, res)
+		if res.Panic != "" && strings.Contains(o.Kind, "query") {
+			// a panic that escapes the driver's query path leaves database/sql's transaction read-locked for good: ending it
+			// would block for ever. The program gives up; the server side of the connection is dropped.
+			if curSrv != nil {
+				curSrv.Crash()
+			}
+			return append(out, OpResult{Err: u.Tx + ": not attempted after a panic in a query"})
+		}
 	}
 	var e2 error
 	if u.Tx == "commit" {
@@ -686,6 +697,11 @@ func allowedExtra(l journalLine) bool {
 var journalSame = map[string]bool{}
 
 func evalCase(r *rep.Run, envs map[string]*sys.Env, c Case, idx int) {
+	// retry waits of the proxy (lock retries) elapse at once
+	if !vtime.IsVirtual() {
+		vtime.SetVirtual(func(d time.Duration) bool { return d != 20*time.Second }) // (only the 20 s RPC timeout stays pending)
+		defer vtime.SetPassThrough()
+	}
 	e := envs[c.Params]
 	sys.TakeErrors()
 	bare, err := runSide(e, e.Bare, c, false)
